@@ -68,6 +68,9 @@ func (Echo) PATCH(string, func(Context) error)  {}
 
 type payloadTy struct{ src, str string }
 
+// routesAvoidGetWithData: set by C14 so that the synthesised files do not exhibit its recorded finding
+var routesAvoidGetWithData bool
+
 func synthRoutes(r *rng, idx int, withVarForm bool) (*modSpec, []routeIntent) {
 	mod := "example.com/org/api"
 	payloads := []payloadTy{
@@ -131,11 +134,23 @@ func synthRoutes(r *rng, idx int, withVarForm bool) (*modSpec, []routeIntent) {
 			if r.bool() {
 				in.HandlerKind, in.Name = "imported-method", "HandleExt"
 				handlerExpr = "ext.HandleExt"
+				if routesAvoidGetWithData && (in.Verb == "GET" || in.Verb == "DELETE") {
+					in.Verb = "POST"
+				}
 				in.Stmts = []stmtIntent{{Form: "assign", Call: "Bind", Type: "[]int64"}, {Form: "return", Call: "JSON", Type: "string"}}
 			}
 		default:
 			in.HandlerKind, in.Name = "literal", ""
 			handlerExpr = "func(c echo.Context) error {\n\tvar ct controller\n\t_ = ct\n" + body + "}"
+		}
+		if routesAvoidGetWithData && (in.Verb == "GET" || in.Verb == "DELETE") && in.HandlerKind != "imported-method" {
+			// C14: a body or form data with GET/DELETE is a recorded finding, shown by a dedicated corpus file
+			for _, st := range in.Stmts {
+				if st.Call == "Bind" || st.Call == "FormValue" || st.Call == "FormFile" || st.Call == "FormValueJSON" {
+					in.Verb = pick(r, []string{"POST", "PUT"})
+					break
+				}
+			}
 		}
 		fmt.Fprintf(&reg, "\te.%s(%s, %s)\n", in.Verb, pathExpr, handlerExpr)
 		intents = append(intents, in)
@@ -155,6 +170,14 @@ func synthRoutes(r *rng, idx int, withVarForm bool) (*modSpec, []routeIntent) {
 		for i, c := range cands[:2+r.intn(2)] {
 			body, stmts := synthBody(r, payloads, false)
 			in := routeIntent{Verb: pick(r, verbs), URL: fmt.Sprintf("/shared/%d", i), HandlerKind: c.kind, Name: "Shared", Stmts: stmts}
+			if routesAvoidGetWithData && (in.Verb == "GET" || in.Verb == "DELETE") {
+				for _, st := range stmts {
+					if st.Call == "Bind" || st.Call == "FormValue" || st.Call == "FormFile" || st.Call == "FormValueJSON" {
+						in.Verb = pick(r, []string{"POST", "PUT"})
+						break
+					}
+				}
+			}
 			decls = append(decls, fmt.Sprintf(c.decl, body))
 			fmt.Fprintf(&reg, "\te.%s(%q, %s)\n", in.Verb, in.URL, c.expr)
 			intents = append(intents, in)
@@ -167,7 +190,7 @@ func synthRoutes(r *rng, idx int, withVarForm bool) (*modSpec, []routeIntent) {
 	// things that are not registrations: a one-argument call and a non-verb method
 	reg.WriteString("\te.PATCH(\"/not_a_known_verb\", topLevelNoop)\n\tfmt.Println(\"GET\", localRoute)\n}\n\nfunc topLevelNoop(echo.Context) error { return nil }\n")
 	b.WriteString(reg.String())
-	innerSrc := "package inner\n\nimport \"" + mod + "/echo\"\n\nconst Url = \"/inner_const/\"\n\ntype Controller struct{}\n\nfunc (Controller) HandleExt(c echo.Context) error {\n\tvar in []int64\n\terr := c.Bind(&in)\n\t_ = err\n\tvar out string\n\treturn c.JSON(200, out)\n}\n\nfunc TopLevel(c echo.Context) error {\n\tv := c.QueryParam(\"inner1\")\n\t_ = v\n\tvar out map[string][]int\n\treturn c.JSON(200, out)\n}\n"
+	innerSrc := "package inner\n\nimport \"" + mod + "/echo\"\n\nconst Url = \"/inner_const/\"\n\ntype Controller struct{}\n\nfunc (Controller) HandleExt(c echo.Context) error {\n\tvar in []int64\n\terr := c.Bind(&in)\n\t_ = err\n\tvar out string\n\treturn c.JSON(200, out)\n}\n\nfunc QueryParamInt[T ~int64](echo.Context, string) (T, error) { return 0, nil }\n\nfunc TopLevel(c echo.Context) error {\n\tv := c.QueryParam(\"inner1\")\n\t_ = v\n\tvar out map[string][]int\n\treturn c.JSON(200, out)\n}\n"
 	m := &modSpec{Name: fmt.Sprintf("routes%d", idx), ModPath: mod, Target: "routes.go", GoSrc: r.bool(),
 		Files: []modFile{{"routes.go", b.String()}, {"echo/echo.go", echoStub}, {"inner/inner.go", innerSrc}}}
 	return m, intents
@@ -204,7 +227,11 @@ func synthBody(r *rng, payloads []payloadTy, varForm bool) (string, []stmtIntent
 			fmt.Fprintf(&b, "\t%s := ct.QueryParamInt64(c, %q)\n\t_ = %s\n", x, name, x)
 			st = append(st, stmtIntent{Form: "assign", Call: "QueryParamInt64", Name: name, Type: "int64"})
 		case 3:
-			fmt.Fprintf(&b, "\t%s, err%s := QueryParamInt[IdItem](c, %q)\n\t_, _ = %s, err%s\n", x, x, name, x, x)
+			if r.bool() { // the same helper through a package selector
+				fmt.Fprintf(&b, "\t%s, err%s := inner.QueryParamInt[IdItem](c, %q)\n\t_, _ = %s, err%s\n", x, x, name, x, x)
+			} else {
+				fmt.Fprintf(&b, "\t%s, err%s := QueryParamInt[IdItem](c, %q)\n\t_, _ = %s, err%s\n", x, x, name, x, x)
+			}
 			st = append(st, stmtIntent{Form: "assign", Call: "QueryParamInt", Name: name, Type: "example.com/org/api.IdItem"})
 		default:
 			y := v()
